@@ -78,6 +78,7 @@ TSilent ==
   /\ Silent
   /\ \/ S!NoFlush \/ (\E t \in 1..c.ntx : S!WorkerDone(t))
      \/ S!StartCollect \/ S!EndCollect \/ S!CollectCrashed
+     \/ (S!Gather /\ phase' = "aborted")      \* loading an unusable variant series raises before the gather hook logs
 
 TraceNext == TGather \/ TFlush \/ TCollect \/ TFinish \/ TAbort \/ TSilent
 
